@@ -383,6 +383,12 @@ func (fr *frame) step() bool {
 		if ex.steps&0xfff == 0 && !ex.cfg.Deadline.IsZero() && time.Now().After(ex.cfg.Deadline.Add(20*time.Second)) {
 			panic(pathEnd{kind: endBudget, msg: "wall-clock deadline exceeded inside a path in " + ex.site()})
 		}
+		if ex.env.budgetAt != 0 && ex.steps > ex.env.budgetAt {
+			ex.env.budgetAt = 0
+			ex.hits[ex.env.budgetLabel]++
+			ex.report(ex.env.budgetLabel, ex.repoSite(), "step budget exceeded (no progress / non-termination)", ex.model.Clone())
+			panic(pathEnd{kind: endViolation})
+		}
 		if ex.steps > ex.cfg.StepBudget {
 			panic(pathEnd{kind: endBudget, msg: fmt.Sprintf("instruction budget %d exceeded in %s", ex.cfg.StepBudget, ex.site())})
 		}
